@@ -138,6 +138,17 @@ def configs(tier, seed):
         out.append(('reorder%d/ll/omp3' % f,
                     ['--nnps', 'll', '--openmp', '--reorder-freq', str(f)],
                     3, 'tol', None))
+    # valid gids: neighbours are then sorted by gid, which does not change
+    # when particles are re-ordered, so runs that differ only in the
+    # neighbour algorithm stay bit-identical even with re-ordering
+    for f in ([1] if quick else [1, 3]):
+        grp = 'gids-reorder%d' % f
+        for nn in (['ll', 'ci', 'tree', 'comp_tree', 'box'] if quick else
+                   ['ll', 'box', 'ci', 'tree', 'comp_tree']):
+            out.append(('%s/%s' % (grp, nn),
+                        ['--nnps', nn, '--sort-gids', '--valid-gids',
+                         '--reorder-freq', str(f), '--no-openmp'], 1,
+                        'bitgrp', '%s/ll' % grp))
     # twins: identical options, must be bit-identical to their first run
     for nm in ['ref', 'unsorted/ll/omp4', 'reorder1/ll/omp3']:
         src = next(c for c in out if c[0] == nm)
@@ -283,6 +294,22 @@ def run(tier):
                             'array %s property %s: %s' % (nm, d[0], d[1],
                                                           d[2]),
                             dict(item=it, info=info))
+            continue
+        if it['klass'] == 'bitgrp':
+            other = states.get('%s:%s' % (pr, it['twin']))
+            if other is None or nm.endswith(it['twin']):
+                continue
+            d = compare(states[nm], other, bit=True)
+            compared['bit'] += 1
+            if d:
+                kind, nn = family_of(nm.split(':', 1)[1])
+                v.violation('sorted-by-gid:nnps=%s' % nn,
+                            '%s (%s) vs the ll run with the same options: '
+                            'array %s property %s: %s' % (
+                                nm, info['nnps'], d[0], d[1], d[2]),
+                            dict(item={k: it[k] for k in (
+                                'problem', 'name', 'args', 'threads')},
+                                info=info))
             continue
         bit = it['klass'] == 'bit'
         d = compare(states[nm], ref, bit=bit)
